@@ -390,6 +390,7 @@ impl<'a, F: Field> AddAssign<(F, &'a Self)> for DensePolynomial<F> {
             self.coeffs.clear();
             self.coeffs.extend_from_slice(&other.coeffs);
             self.coeffs.iter_mut().for_each(|c| *c *= &f);
+            self.truncate_leading_zeros();
             return;
         }
 
